@@ -199,6 +199,7 @@ def run_one(m, jobs, seed):
                 rec["verdict"] = "inconclusive"
             # is it a change the repository's own tests would have stopped?
             shutil.copytree(os.path.join(REPO, "tests"), d + "/tests")
+            os.makedirs(d + "/.git", exist_ok=True)  # tests/menelaus/utils looks for the checkout root
             for extra in ("setup.cfg", "pyproject.toml", "setup.py", "conftest.py"):
                 if os.path.exists(os.path.join(REPO, extra)):
                     shutil.copy(os.path.join(REPO, extra), d)
